@@ -95,3 +95,30 @@ class C01(Spec):
 PROPS = {
     'C01': C01(),
 }
+
+
+class C02(Spec):
+    functions = CORE_FUNCS
+    def queries(self, tier, bld):
+        return [core_q('C02.core.L12', ['PROP_C02', 'PROP_C02_SETKEY'], L=12)]
+
+
+class C03(Spec):
+    functions = CORE_FUNCS
+    def queries(self, tier, bld):
+        return [core_q('C03.core.L12', ['PROP_C03'], L=12)]
+
+
+class C06(Spec):
+    functions = CORE_FUNCS
+    def queries(self, tier, bld):
+        return [core_q('C06.verdict.L12', ['PROP_C06'], L=12)]
+
+
+class C14(Spec):
+    functions = CORE_FUNCS
+    def queries(self, tier, bld):
+        return [core_q('C14.verify.L12', ['PROP_C14', 'DIRTY_PRESTATE'], L=12)]
+
+
+PROPS.update({'C02': C02(), 'C03': C03(), 'C06': C06(), 'C14': C14()})
